@@ -40,7 +40,8 @@ def run(ctx):
         for e in pur.effects(f):
             if e.kind == "lazyinit":
                 continue
-            if e.kind == "selfstore" and e.func.cls is not None and e.func.cls.name.endswith("Iter") and e.func.module.relpath.startswith("anytree/iterators/"):
+            if e.kind == "selfstore" and e.func.cls is not None and e.func.module.relpath.startswith("anytree/iterators/") \
+                    and (e.func.cls.name.endswith("Iter") or "__next__" in e.func.cls.members):
                 continue
             if e.kind == "callback" and e.text.split()[-1] in ("filter_", "stop"):
                 continue
@@ -180,6 +181,12 @@ def _const_eval(e, env):
             if isinstance(e.op, k):
                 return fn()
         raise _Unknown("binop")
+    if isinstance(e, ast.Compare) and len(e.ops) == 1 and isinstance(e.ops[0], (ast.Is, ast.IsNot)):
+        # `<group> is None`: a drawn group is a tuple, never None (the exhaustion sentinel of next(it, None))
+        for a, b in ((e.left, e.comparators[0]), (e.comparators[0], e.left)):
+            if isinstance(b, ast.Constant) and b.value is None and isinstance(a, ast.Name) and a.id in env \
+                    and not isinstance(env[a.id], (bool, int)):
+                return isinstance(e.ops[0], ast.IsNot)
     if isinstance(e, ast.Compare) and len(e.ops) == 1:
         l, r = _const_eval(e.left, env), _const_eval(e.comparators[0], env)
         ops = {ast.Eq: l == r, ast.NotEq: l != r, ast.Lt: l < r, ast.Gt: l > r, ast.LtE: l <= r, ast.GtE: l >= r, ast.Is: l is r, ast.IsNot: l is not r}
@@ -201,6 +208,8 @@ def zigzag_alternation(zz):
     srcs = [c for c in walk_own(zz.node) if isinstance(c, ast.Call) and norm(c.func).endswith("LevelOrderGroupIter")]
     other_iters = [c for c in walk_own(zz.node) if isinstance(c, ast.Call) and isinstance(c.func, ast.Name) and c.func.id.endswith("Iter")
                    and c not in srcs]
+    if not [y for y in walk_own(zz.node) if isinstance(y, (ast.Yield, ast.YieldFrom))]:
+        return False, "unrecognised: ZigZagGroupIter._iter is not a generator function (the groups are produced elsewhere)", zz.node
     if len(srcs) != 1 or other_iters:
         return False, "groups do not come from exactly one LevelOrderGroupIter", zz.node
     src = srcs[0]
@@ -212,7 +221,7 @@ def zigzag_alternation(zz):
     itnames = {t.id for n in walk_own(zz.node) if isinstance(n, ast.Assign) and n.value is src for t in n.targets if isinstance(t, ast.Name)}
     loops = [n for n in walk_own(zz.node) if isinstance(n, (ast.While, ast.For))]
     if len(loops) != 1:
-        return False, "expected exactly one loop over the groups", zz.node
+        return False, "unrecognised: expected exactly one loop over the groups", zz.node
     loop = loops[0]
     outside = [y for y in walk_own(zz.node) if isinstance(y, (ast.Yield, ast.YieldFrom)) and not any(y is x for x in ast.walk(loop))]
     if outside:
@@ -257,7 +266,8 @@ def zigzag_alternation(zz):
         """value of an expression that denotes a group"""
         if isinstance(e, ast.Name) and isinstance(genv.get(e.id), Group):
             return genv[e.id]
-        if isinstance(e, ast.Call) and norm(e.func) == "next" and e.args and is_src(e.args[0]) and len(e.args) == 1:
+        if isinstance(e, ast.Call) and norm(e.func) == "next" and e.args and is_src(e.args[0]) and (
+                len(e.args) == 1 or (len(e.args) == 2 and isinstance(e.args[1], ast.Constant) and e.args[1].value is None)):
             g = Group(drawn[0])
             drawn[0] += 1
             return g
